@@ -335,3 +335,148 @@ Fixpoint observations (K : sconsts) (s : sensor) (ops : list sop) : list sobs :=
   | [] => []
   | o :: r => step_obs K s o :: observations K (step_state K s o) r
   end.
+
+(* ------------------------------------------------------------------ *)
+(* Re-entrant unit definitions: a user-defined Unit whose callables are
+   themselves written with units.convert, e.g.
+
+     yard = Unit(meter, base_to_unit = lambda m: convert(meter, inch, m) / 36,
+                        unit_to_base = lambda y: convert(inch, meter, y * 36))
+
+   and further units hung below it (fathom below yard, ...).  While the outer
+   convert() is in the middle of one of its loops, the callable starts ANOTHER
+   activation of convert().  In the code every activation has its own locals
+   (`current_unit`, `current_value`, `unit_chain = []`); in the model every
+   activation is an application of the same function [convert_with] to its own
+   arguments [src] / [dst], so the nested call cannot touch the chain the outer
+   call is walking.
+
+   [via_link s d k]: the two callables above, for the units (chains) s, d that
+   the lambdas captured:  to_base y = convert(d, s, y * k),
+                          from_base m = convert(s, d, m) / k. *)
+Definition via_link (s d : list link) (k : Q) : link :=
+  {| to_base := fun y => convert d s (y * k);
+     from_base := fun m => convert s d m / k |}.
+
+(* The same with a log of EVERY callable application, the nested ones
+   included, in the order in which the callables are entered (what the symbolic
+   correspondence observes on the real code): the value pushed through the
+   callables is (number, log so far). *)
+Definition lval := (Q * list (nat * bool))%type.
+Record llink := { l_up : lval -> lval;        (* unit_to_base *)
+                  l_down : lval -> lval }.    (* base_to_unit *)
+
+Definition lconvert (src dst : list llink) (v : lval) : lval :=
+  convert_with l_up l_down src dst v.
+
+(* unit number u with plain callables: note the application, apply *)
+Definition logged (u : nat) (l : link) : llink :=
+  {| l_up := fun v => (to_base l (fst v), snd v ++ [(u, true)]);
+     l_down := fun v => (from_base l (fst v), snd v ++ [(u, false)]) |}.
+
+(* unit number u whose callables call convert(): note the application, then
+   the nested activation appends its own applications *)
+Definition lvia (u : nat) (s d : list llink) (k : Q) : llink :=
+  {| l_up := fun v => lconvert d s (fst v * k, snd v ++ [(u, true)]);
+     l_down := fun v => let r := lconvert s d (fst v, snd v ++ [(u, false)]) in
+                        (fst r / k, snd r) |}.
+
+(* How a user's module defines its units, in order: unit i is created with
+   base_unit = an EARLIER unit (or None) and with callables that are either
+   plain arithmetic (x |-> a x + b and its inverse) or call convert() on two
+   EARLIER units s, d.  (A Python definition can only mention objects that
+   exist already; a reference to a later unit is [Raise NoSuchUnit].) *)
+Inductive uspec :=
+| UAffine (a b : Q)
+| UVia (s d : nat) (k : Q).
+
+Record built := { b_link : link;       (* the callables on numbers *)
+                  b_llink : llink }.   (* the same callables, logging *)
+
+Definition plain (u : nat) (l : link) : built :=
+  {| b_link := l; b_llink := logged u l |}.
+
+Definition links (ch : list (nat * built)) : list link := map b_link (map snd ch).
+Definition llinks (ch : list (nat * built)) : list llink := map b_llink (map snd ch).
+
+Definition parent_defined (n : nat) (p : option nat) : bool :=
+  match p with None => true | Some q => Nat.ltb q n end.
+
+(* the Unit(...) call that creates unit number [length tbl] *)
+Definition build_entry (tbl : list (option nat * built)) (e : option nat * uspec)
+  : outcome (option nat * built) :=
+  let u := length tbl in
+  if parent_defined u (fst e) then
+    match snd e with
+    | UAffine a b => Val (fst e, plain u (affine_link a b))
+    | UVia s d k =>
+        match chain_of tbl s with
+        | Val cs =>
+            match chain_of tbl d with
+            | Val cd => Val (fst e, {| b_link := via_link (links cs) (links cd) k;
+                                       b_llink := lvia u (llinks cs) (llinks cd) k |})
+            | Raise x => Raise x
+            | Loops => Loops
+            end
+        | Raise x => Raise x
+        | Loops => Loops
+        end
+    end
+  else Raise NoSuchUnit.
+
+Fixpoint build_from (tbl : list (option nat * built)) (spec : list (option nat * uspec))
+  : outcome (list (option nat * built)) :=
+  match spec with
+  | [] => Val tbl
+  | e :: r =>
+      match build_entry tbl e with
+      | Val x => build_from (tbl ++ [x]) r
+      | Raise x => Raise x
+      | Loops => Loops
+      end
+  end.
+
+Definition build_units (spec : list (option nat * uspec)) := build_from [] spec.
+
+Definition pure_table (tbl : list (option nat * built)) : list (option nat * link) :=
+  map (fun e => (fst e, b_link (snd e))) tbl.
+
+(* convert(a, b, x) on such units: the number ... *)
+Definition convert_built (tbl : list (option nat * built)) (a b : nat) (x : Q) : outcome Q :=
+  convert_tbl (pure_table tbl) a b x.
+
+(* ... and the number together with the complete log *)
+Definition trace_built (tbl : list (option nat * built)) (a b : nat) (x : Q) : outcome lval :=
+  match chain_of tbl a with
+  | Val ca =>
+      match chain_of tbl b with
+      | Val cb => Val (lconvert (llinks ca) (llinks cb) (x, []))
+      | Raise e => Raise e
+      | Loops => Loops
+      end
+  | Raise e => Raise e
+  | Loops => Loops
+  end.
+
+(* decidable side conditions on a definition list: every non-root unit's
+   callables are invertible as written (a <> 0, k <> 0) ... *)
+Definition entry_ok (e : option nat * uspec) : bool :=
+  match fst e with
+  | None => true
+  | Some _ => match snd e with
+              | UAffine a _ => negb (Qeq_bool a 0)
+              | UVia _ _ k => negb (Qeq_bool k 0)
+              end
+  end.
+Definition spec_ok (spec : list (option nat * uspec)) : bool := forallb entry_ok spec.
+
+(* ... and, for linearity, no offsets *)
+Definition entry_linear (e : option nat * uspec) : bool :=
+  match fst e with
+  | None => true
+  | Some _ => match snd e with
+              | UAffine a b => negb (Qeq_bool a 0) && Qeq_bool b 0
+              | UVia _ _ k => negb (Qeq_bool k 0)
+              end
+  end.
+Definition spec_linear (spec : list (option nat * uspec)) : bool := forallb entry_linear spec.
